@@ -1,0 +1,28 @@
+//go:build verif
+
+package reflection
+
+import (
+	"time"
+
+	"github.com/renbou/grpcbridge/grpcadapter"
+)
+
+// VerifClient exposes the unexported reflection client to the external verification harness (tag "verif" only),
+// so that its pipelined request execution and close() can be driven against a scripted ClientStream.
+type VerifClient struct{ c *client }
+
+// VerifNewClient wraps an already established reflection stream like connectClient does.
+func VerifNewClient(stream grpcadapter.ClientStream, timeout time.Duration) *VerifClient {
+	return &VerifClient{c: &client{stream: stream, timeout: timeout}}
+}
+
+func (v *VerifClient) ListServiceNames() ([]string, error) { return v.c.listServiceNames() }
+
+func (v *VerifClient) FileDescriptorsByFilenames(names []string) ([][]byte, error) {
+	return v.c.fileDescriptorsByFilenames(names)
+}
+
+func (v *VerifClient) Close() { v.c.close() }
+
+func (v *VerifClient) Failed() bool { return v.c.failed.Load() }
